@@ -315,6 +315,9 @@ def verify_function(contract, reg, repo=REPO):
                 return None
             return MList([const(ty.elem, '%s!%d' % (name, k)) for k in range(n)])
         for name, ty in contract.params.items():
+            if isinstance(ty, FnSpec):
+                st.env[name] = MFn('spec', name, spec=ty)     # function-valued parameter: abstract callee
+                continue
             v = shaped(name, ty)
             if v is None:
                 v = MNONE if ty == NONE else const(ty, name)
